@@ -16,7 +16,7 @@ META = {
         'wrapper that owns it and deleted only by that wrapper, and the wrapper hands out the function object, so '
         'evicting a cache entry cannot remove another entry\'s function and earlier results keep working; (D3) the '
         'cache key is the filter text itself (the lru_cache\'d function has the text as its only parameter) and '
-        'every caller goes through it.  Not decided: exhaustive interleaving exploration; CPython lru_cache '
+        'every caller goes through it; (D4) no module-level mutable container is mutated and read back outside one critical section by the filter functions.  Not decided: exhaustive interleaving exploration; CPython lru_cache '
         'internals (trusted thread-safe); the 1500-filter history as an execution.'),
     'rule_text': 'obligations = reads/writes of shared module globals on the filter path x lockset, name derivation, '
                  'shared-namespace writes, cache-key facts',
@@ -26,6 +26,94 @@ META = {
 
 MOD = 'grid_filter'
 F = 'hszinc/grid_filter.py'
+
+
+MUTATORS = ('append', 'extend', 'insert', 'pop', 'remove', 'clear', 'update', 'setdefault', 'add', 'discard',
+            'popitem', 'sort', 'reverse', 'appendleft', 'popleft')
+
+
+def _containers(ctx, m, mod, funcs, locks):
+    """(D4) module-level mutable containers (lists, dicts, sets, deques) reached by the filter functions: a
+    mutation combined with a position/size/content read of the same container in the same function is a
+    compound action; outside one `with <module lock>` section another thread's mutation can fall between the
+    two halves.  A lone mutation outside a lock is not decided (it may be an idempotent memo)."""
+    containers = {}
+    for name, defs in mod.bindings.items():
+        for d in defs:
+            if isinstance(d, ast.Assign) and getattr(d, '_parent', None) is mod.tree:
+                v = d.value
+                if isinstance(v, (ast.List, ast.Dict, ast.Set, ast.ListComp, ast.DictComp, ast.SetComp)) or (
+                        isinstance(v, ast.Call) and norm(v.func) in ('list', 'dict', 'set', 'collections.deque', 'deque',
+                                                                     'collections.OrderedDict', 'OrderedDict',
+                                                                     'collections.defaultdict', 'defaultdict')):
+                    containers[name] = d
+    ctx.count('module-level mutable containers', len(containers))
+
+    def section(node):
+        p = getattr(node, '_parent', None)
+        while p is not None and not isinstance(p, ast.FunctionDef):
+            if isinstance(p, ast.With) and any(norm(i.context_expr) in locks for i in p.items):
+                return p
+            p = getattr(p, '_parent', None)
+        return None
+
+    n_mut = 0
+    for fn in funcs:
+        local = {a.arg for a in fn.args.args} | {a.arg for a in fn.args.kwonlyargs}
+        for n in walk_no_nested(fn):
+            if isinstance(n, ast.Name) and isinstance(n.ctx, ast.Store):
+                local.add(n.id)
+        declared = set()
+        for n in walk_no_nested(fn):
+            if isinstance(n, ast.Global):
+                declared |= set(n.names)
+        local -= declared
+        muts, reads = {}, {}
+        for n in walk_no_nested(fn):
+            if isinstance(n, ast.Call) and isinstance(n.func, ast.Attribute) and isinstance(n.func.value, ast.Name) \
+                    and n.func.value.id in containers and n.func.value.id not in local and n.func.attr in MUTATORS:
+                muts.setdefault(n.func.value.id, []).append(n)
+            elif isinstance(n, ast.Subscript) and isinstance(n.value, ast.Name) and n.value.id in containers \
+                    and n.value.id not in local:
+                if isinstance(n.ctx, (ast.Store, ast.Del)):
+                    muts.setdefault(n.value.id, []).append(n)
+                else:
+                    reads.setdefault(n.value.id, []).append(n)
+            elif isinstance(n, ast.Name) and n.id in containers and n.id not in local and isinstance(n.ctx, ast.Load):
+                p = getattr(n, '_parent', None)
+                if isinstance(p, ast.Attribute) and isinstance(getattr(p, '_parent', None), ast.Call) \
+                        and p._parent.func is p and p.attr in MUTATORS:
+                    continue
+                if isinstance(p, ast.Subscript) and p.value is n:
+                    continue
+                reads.setdefault(n.id, []).append(n)
+        for name, ms in muts.items():
+            n_mut += len(ms)
+            rs = reads.get(name, [])
+            secs = {id(section(x)) if section(x) is not None else None for x in ms + rs}
+            if secs == {None} or None in secs or len(secs) > 1:
+                if rs:
+                    mu, rd = ms[0], rs[0]
+                    st = rd
+                    while not isinstance(st, ast.stmt):
+                        st = st._parent
+                    ctx.violation('C13.D4', '%s::%s' % (F, fn.name), norm(st),
+                                  'schedule: thread A (compiling filter 1) runs `%s` at line %d; thread B (compiling filter 2) '
+                                  'mutates %s as well; thread A then evaluates `%s` at line %d and obtains B\'s position/'
+                                  'content -- the code generated for filter 1 refers to filter 2\'s entry, and that wrong '
+                                  'function stays cached' % (norm(mu)[:50], mu.lineno, name, norm(st)[:60], rd.lineno),
+                                  'the module-level container %s is mutated and then read back in %s outside one `with '
+                                  '<module lock>` section: the compound action is not atomic' % (name, fn.name),
+                                  file=F, line=mu.lineno, engine='E11')
+                else:
+                    ctx.error('C13.D4', '%s:%d %s mutates the module-level container %s outside a lock; whether the order of '
+                                        'mutations matters is not decided' % (F, ms[0].lineno, fn.name, name))
+            else:
+                ctx.ob('C13.D4', '%s: %d mutation(s) and %d read(s) of %s inside one critical section'
+                       % (fn.name, len(ms), len(rs), name), True, '%s:%d' % (F, ms[0].lineno))
+    if not n_mut:
+        ctx.ob('C13.D4', 'no function of grid_filter mutates a module-level container (%d containers: %s)'
+               % (len(containers), sorted(containers)), True, F)
 
 
 def run(ctx):
@@ -171,6 +259,8 @@ def run(ctx):
                    '%s:%d' % (F, name_assign.lineno))
         else:
             ctx.error('C13.D1', 'shape of the generated name not recognised: %s' % norm(v))
+
+    _containers(ctx, m, mod, funcs, locks)
 
     # ---- D2 name lifetime: shared-namespace writes
     try:
